@@ -54,13 +54,25 @@ func (w *World) ImplKey() string {
 const addr = "broker:1883"
 
 // SelectiveAuth is an authenticator registered by the harness: it rejects the
-// user "evil" and accepts everybody else.
+// user "evil", accepts the user "admin" with the password "secret" only, and
+// accepts everybody else.
 const SelectiveAuth = "verifSelective"
 
 type selectiveAuth struct{}
 
+func selectiveOK(user, pass string) bool {
+	switch user {
+	case "evil":
+		return false
+	case "admin":
+		return pass == "secret"
+	}
+	return true
+}
+
 func (selectiveAuth) Authenticate(id string, cred interface{}) error {
-	if id == "evil" {
+	pw, _ := cred.(string)
+	if !selectiveOK(id, pw) {
 		return auth.ErrAuthFailure
 	}
 	return nil
